@@ -169,6 +169,73 @@ func Zero(cur realm, s []int) {
 }
 func Reset(cur realm) { reset(); resets++ }
 
+// TouchNC rewrites every field of every object with its OWN current value: a content-preserving
+// write by the victim itself. The "_flush" contexts call it after the attack, so that an in-memory
+// change made by attacker code (which a healthy VM never lets happen) would be saved with the object.
+func touchBox(b *lib.Box) {
+	b.V = b.V
+	for i := range b.Tags {
+		b.Tags[i] = b.Tags[i]
+	}
+	for k, x := range b.Kids {
+		b.Kids[k] = x
+	}
+}
+
+func touchInner(i *Inner) {
+	i.N = i.N
+	for k := range i.Tags {
+		i.Tags[k] = i.Tags[k]
+	}
+}
+
+func touchT(t *T) {
+	t.N = t.N
+	t.S = t.S
+	touchInner(&t.In)
+	if t.P != nil {
+		touchInner(t.P)
+	}
+	for i := range t.Arr {
+		t.Arr[i] = t.Arr[i]
+	}
+	full := t.Sl[:cap(t.Sl)]
+	for i := range full {
+		full[i] = full[i]
+	}
+	for k, x := range t.M {
+		t.M[k] = x
+	}
+	touchBox(t.B)
+	if in, ok := t.Any.(*Inner); ok {
+		touchInner(in)
+	}
+}
+
+func TouchNC() {
+	touchT(&G)
+	touchT(GP)
+	GI = GI
+	full := GS[:cap(GS)]
+	for i := range full {
+		full[i] = full[i]
+	}
+	for k, x := range GM {
+		GM[k] = x
+	}
+	for i := range GArr {
+		GArr[i] = GArr[i]
+	}
+	touchBox(GB)
+	if t, ok := GAny.(*T); ok {
+		touchT(t)
+	}
+	touchT(priv)
+	for _, p := range ptrs {
+		touchT(p)
+	}
+}
+
 // ---- full dump of the persisted state (every field on every path)
 func dumpInts(s []int) string {
 	r := "["
